@@ -45,6 +45,8 @@ def _case(draw, tier):
         c["indices"] = draw(indices_for(len(c["trains"]), allow_none=False))
     c["compiled"] = draw(st.booleans())
     c["alias_equal"] = draw(st.booleans())
+    # the scalar is asked for with Reconcile=False (valid input), the profile as usual
+    c["reconcile_off"] = draw(st.sampled_from([False, False, True]))
     return c
 
 
@@ -121,6 +123,8 @@ def run_case(case, ctx):
     dkw = dict(kw)
     if fn["interval"]:
         dkw["interval"] = iv
+    if case.get("reconcile_off"):
+        dkw["Reconcile"] = False
     d = ctx.call("distance", fn["dist"], *args, **dkw)
     f = ctx.call("profile", fn["profile"], *args, **kw)
     # averaging over a very short interval divides an integral (absolute rounding
